@@ -56,6 +56,8 @@ def gen_case(rng, nmax, quick_small=True):
     if rng.random() < 0.25:
         c["spurious"] = [rng.choice([30, 100, 250, 500]), rng.randrange(1, 7)]
     c["opts"] = {"labels": rng.choice([0, 1]), "sopt": 1 if rng.random() < 0.2 else 0, "S": 1 if rng.random() < 0.2 else 0}
+    if rng.random() < 0.12:
+        c["opts"]["pers"] = "pcp"       # pdcp personality: workers are _rcp_thread (same epilogue, own code)
     return c
 
 
